@@ -180,7 +180,8 @@ Record frame := mkFrame { f_kind : kind; f_start : N; f_end : N; f_children : li
 Record state := mkState {
   st_z : list frame;              (* open scopes, innermost first *)
   st_decls : list decl;           (* LuaDeclarationTree::decls (keyed by position) *)
-  st_refs : list (N * decl)       (* FileReference::references_to_decl (keyed by the start of the token) *)
+  st_refs : list (N * decl);      (* FileReference::references_to_decl (keyed by the start of the token) *)
+  st_cells : list (N * (N * N))   (* FileReference::decl_references: declaration position, range of the referring token *)
 }.
 
 Definition frame_node (f : frame) : node := NScope (f_kind f) (f_start f) (f_end f) (f_children f).
@@ -200,13 +201,13 @@ Definition plug (z : list frame) : option node :=
 
 (** [DeclAnalyzer::create_scope] (the new scope becomes a child of the current one) *)
 Definition create_scope (s e : N) (k : kind) (st : state) : state :=
-  mkState (mkFrame k s e [] :: st_z st) (st_decls st) (st_refs st).
+  mkState (mkFrame k s e [] :: st_z st) (st_decls st) (st_refs st) (st_cells st).
 
 (** [DeclAnalyzer::pop_scope]; the root scope stays (the arena keeps it) *)
 Definition pop_scope (st : state) : state :=
   match st_z st with
   | f :: g :: z' =>
-      mkState (mkFrame (f_kind g) (f_start g) (f_end g) (f_children g ++ [frame_node f]) :: z') (st_decls st) (st_refs st)
+      mkState (mkFrame (f_kind g) (f_start g) (f_end g) (f_children g ++ [frame_node f]) :: z') (st_decls st) (st_refs st) (st_cells st)
   | _ => st
   end.
 
@@ -214,8 +215,8 @@ Definition pop_scope (st : state) : state :=
 Definition add_decl (d : decl) (st : state) : state :=
   match st_z st with
   | f :: z' =>
-      mkState (mkFrame (f_kind f) (f_start f) (f_end f) (f_children f ++ [NDecl d]) :: z') (st_decls st ++ [d]) (st_refs st)
-  | [] => mkState [] (st_decls st ++ [d]) (st_refs st)
+      mkState (mkFrame (f_kind f) (f_start f) (f_end f) (f_children f ++ [NDecl d]) :: z') (st_decls st ++ [d]) (st_refs st) (st_cells st)
+  | [] => mkState [] (st_decls st ++ [d]) (st_refs st) (st_cells st)
   end.
 
 Definition get_decl (p : N) (st : state) : option decl := find (fun d => d_pos d =? p) (st_decls st).
@@ -225,21 +226,23 @@ Definition find_decl (x : name) (p : N) (st : state) : option decl := find_local
 Definition lookup_ref (p : N) (refs : list (N * decl)) : option decl :=
   match find (fun r => fst r =? p) refs with Some r => Some (snd r) | None => None end.
 
-(** [FileReference::add_decl_reference]: the first entry for a range wins *)
-Definition add_ref (p : N) (d : decl) (st : state) : state :=
+(** [FileReference::add_decl_reference] for the token range [p, e): the first entry for a range wins; the cell
+    list of the declaration receives the range exactly when the map does *)
+Definition add_ref (p e : N) (d : decl) (st : state) : state :=
   match lookup_ref p (st_refs st) with
   | Some _ => st
-  | None => mkState (st_z st) (st_decls st) (st_refs st ++ [(p, d)])
+  | None => mkState (st_z st) (st_decls st) (st_refs st ++ [(p, d)]) (st_cells st ++ [(d_pos d, (p, e))])
   end.
 
 (** [analyze_name_expr] *)
 Definition analyze_name_expr (x : name) (p : N) (st : state) : state :=
+  let e := p + nlen x in
   match get_decl p st with
-  | Some d => add_ref p d st
+  | Some d => add_ref p e d st
   | None =>
       match find_decl x p st with
-      | Some d => if is_local d then add_ref p d st
-                  else if d_pos d =? p then st else add_ref p d st
+      | Some d => if is_local d then add_ref p e d st
+                  else if d_pos d =? p then st else add_ref p e d st
       | None => st
       end
   end.
@@ -259,7 +262,7 @@ Fixpoint analyze_assign_vars (vs : exprs) (o : N) (st : state) : state :=
       let st1 :=
         match v with
         | EName x => match find_decl x o st with
-                     | Some d => add_ref o d st
+                     | Some d => add_ref o (o + nlen x) d st
                      | None => add_decl (mkDecl o x DGlobal) st
                      end
         | _ => st
@@ -380,7 +383,7 @@ with walk_block (b : block) (o : N) (st : state) : state :=
 (** [DeclAnalyzer::analyze]: the chunk scope, then the chunk's block (both span the whole text) *)
 Definition walk_program (p : program) : state :=
   let n := len_block p in
-  let st0 := create_scope 0 n KNormal (mkState [] [] []) in
+  let st0 := create_scope 0 n KNormal (mkState [] [] [] []) in
   if has_items p then pop_scope (walk_block p 0 (create_scope 0 n KNormal st0)) else st0.
 
 (** * Name uses *)
